@@ -327,6 +327,10 @@ pub fn c_to_u64<K: KV, S: Src>(s: &mut S) {
     s.cover(true);
     let r = x.to_u64();
     chk!(s, r as u128 == spec_rank(&x, 0), "to_u64 is the lexicographic rank of the string");
+    let j = s.usize();
+    s.assume(j < K::KK);
+    // the packed word spells the bases in its low K lanes (seam clause used by the Verus hamming_dist proof at K = 32)
+    chk!(s, ((r >> (2 * (K::KK - 1 - j))) & 3) as u8 == lane(&x, j), "to_u64: lane j of the returned word is base j");
 }
 
 pub fn c_from_u64<K: KV, S: Src>(s: &mut S) {
